@@ -242,6 +242,22 @@ class C05(framework.PropertyCheck):
                 sc2 = r.choice(SCOPES)
                 add(f'(do (in-scope "{sc2}" 1) {CTX})', ('val', ctx(sc, '')), 'sortinner')
                 add(f'(do (unset-scope) {CTX})', ('val', ctx('', '')), 'sortinner')
+        if r.random() < 0.3:
+            # a signal defined in the program takes part in grouping like one from the file, whichever suffix it completes
+            for suf in (['_valid', '_ready'], ['_ready', '_valid'], ['_valid', '_ready', '_data']):
+                cands = sorted(sg[:-len(suf[0])] for sg in sigset if sg.endswith(suf[0]) and '.' in sg
+                               and any(sg[:-len(suf[0])] + t not in sigset for t in suf[1:]))
+                if cands:
+                    pfx = r.choice(cands)
+                    new = [pfx + t for t in suf[1:] if pfx + t not in sigset]
+                    sc, _, local = pfx.rpartition('.')
+                    for full in new:
+                        add(f'(in-scope "{sc}" (defsig {full[len(sc) + 1:]} 1))', ('any',))
+                    grown = sigset | set(new)
+                    call = '(groups ' + ' '.join(f'"{t}"' for t in suf) + ')'
+                    add(call, ('val', ('L', False, tuple(('S', q) for q in groups_ref(grown, SCOPES, '', suf)))))
+                    add(f'(in-scope "{sc}" {call})', ('val', ('L', False, tuple(('S', q) for q in groups_ref(grown, SCOPES, sc, suf)))))
+                    break
         return steps, exps
 
     def steps(self, case):
